@@ -13,6 +13,7 @@ import (
 func Copy(ctx context.Context, ids []ChunkID, src Store, dst WriteStore, n int, pb ProgressBar) error {
 	in := make(chan ChunkID)
 	g, ctx := errgroup.WithContext(ctx)
+	verifPoolCtx("Copy", ctx)
 
 	// Setup and start the progressbar if any
 	pb.SetTotal(len(ids))
@@ -22,23 +23,31 @@ func Copy(ctx context.Context, ids []ChunkID, src Store, dst WriteStore, n int, 
 	// Start the workers
 	for i := 0; i < n; i++ {
 		g.Go(func() error {
+			verifPool("Copy", "start", i, -1)
 			for id := range in {
+				verifPool("Copy", "recv", i, -1)
 				pb.Increment()
 				hasChunk, err := dst.HasChunk(id)
 				if err != nil {
+					verifPool("Copy", "fail", i, -1)
 					return err
 				}
 				if hasChunk {
+					verifPool("Copy", "ok", i, -1)
 					continue
 				}
 				chunk, err := src.GetChunk(id)
 				if err != nil {
+					verifPool("Copy", "fail", i, -1)
 					return err
 				}
 				if err := dst.StoreChunk(chunk); err != nil {
+					verifPool("Copy", "fail", i, -1)
 					return err
 				}
+				verifPool("Copy", "ok", i, -1)
 			}
+			verifPool("Copy", "exit", i, -1)
 			return nil
 		})
 	}
@@ -48,14 +57,19 @@ func Copy(ctx context.Context, ids []ChunkID, src Store, dst WriteStore, n int, 
 loop:
 	for _, c := range ids {
 		verifYield("Copy.feed")
+		verifPool("Copy", "select", -1, -1)
 		select {
 		case <-ctx.Done():
+			verifPool("Copy", "break", -1, -1)
 			interrupted = true
 			break loop
 		case in <- c:
+			verifPool("Copy", "sent", -1, -1)
 		}
 	}
+	verifPool("Copy", "close", -1, -1)
 	close(in)
+	verifPool("Copy", "wait", -1, -1)
 
 	return waitOrInterrupted(g, interrupted)
 }
